@@ -87,6 +87,25 @@ fn cmd_batch(args: &[String]) -> i32 {
     let t0 = Instant::now();
     let first: u64 = arg_val(args, "--from").and_then(|s| s.parse().ok()).unwrap_or(0);
     let nruns: u64 = arg_val(args, "--to").and_then(|s| s.parse().ok()).unwrap_or(nruns);
+    {
+        // a run that never returns: persist its plan as the replay, write a result that names it, exit 1
+        let (prop2, out2, dir2) = (prop.clone(), out_path.clone(), replay_dir.clone());
+        let tier_name = if tier == Tier::Quick { "quick" } else { "thorough" };
+        *core::HANG_HANDLER.lock().unwrap() = Some(Box::new(move |idx, mut plan, limit| {
+            let sig = format!("{}|hang|{}", prop2, plan.world);
+            plan.expect = vec![sig.clone()];
+            let _ = std::fs::create_dir_all(&dir2);
+            let path = format!("{}/{}-seed{}-run{}.plan", dir2, slug(&sig), seed, idx);
+            let detail = format!("the run did not finish within {} s (not minimised)", limit);
+            let _ = std::fs::write(&path, format!("# violation: {}\n# detail: {}\n{}", sig, detail, plan.to_text()));
+            let json = format!(
+                "{{\"prop\":{},\"tier\":{},\"seed\":{},\"runs\":0,\"workers\":0,\"wall_s\":{},\"wall_batch_s\":{},\"nontrivial_runs\":0,\"distinct_nontrivial\":0,\"cells_reached\":0,\"sim_seconds\":0,\"trace_xor\":\"0\",\"trace_sum\":\"0\",\"failing_runs\":1,\"faults_fired\":{{}},\"reach_probes\":{{}},\"counts\":{{}},\"cells_by_space\":{{}},\"hang\":true,\"failures\":[{{\"signature\":{},\"run\":{},\"replay\":{},\"detail\":{},\"ops_original\":{},\"ops_minimised\":{}}}],\"samples\":[]}}",
+                jstr(&prop2), jstr(tier_name), seed, limit, limit, jstr(&sig), idx, jstr(&path), jstr(&detail), plan.ops.len(), plan.ops.len()
+            );
+            let _ = std::fs::write(&out2, json);
+            std::process::exit(1);
+        }));
+    }
     let res = run_batch(&prop, tier, seed, first, nruns, workers, spec.gen, worlds::execute, true);
     let wall_batch = t0.elapsed().as_secs_f64();
 
@@ -179,6 +198,22 @@ fn cmd_replay(args: &[String], show: bool) -> i32 {
             return 2;
         }
     };
+    {
+        // a replayed run that never returns reproduces a "hang" violation
+        let sig = format!("{}|hang|{}", plan.prop, plan.world);
+        let expected = plan.expect.is_empty() || plan.expect.contains(&sig);
+        let expect_text = plan.expect.join(",");
+        std::thread::spawn(move || {
+            let limit = core::hang_limit_s();
+            std::thread::sleep(std::time::Duration::from_secs(limit));
+            println!("REPRODUCED signature={} detail=the run did not finish within {} s", sig, limit);
+            if expected {
+                std::process::exit(1);
+            }
+            println!("NOT-REPRODUCED expected={}", expect_text);
+            std::process::exit(0);
+        });
+    }
     let mut ctx = Ctx::new(show);
     if let Err(p) = guarded(|| worlds::execute(&plan, &mut ctx)) {
         ctx.violate(&plan.prop, "escaped_panic", &plan.world, format!("panic {:?} at {}", p.msg, p.short_loc()));
@@ -242,7 +277,7 @@ fn cmd_traces(args: &[String]) -> i32 {
                 }
             }
         }
-        let pow = plan.gets("kind").starts_with("ewma") || plan.gets("nodes").contains("exp.");
+        let pow = plan.gets("kind").starts_with("ewma") || plan.gets("nodes").contains("exp.") || plan.ops.iter().any(|o| o.code == "POW");
         let mut ctx = Ctx::new(full);
         // a panic that escapes an executor (e.g. in harness set-up code that calls rrtk) must not
         // take the other runs down: it becomes part of this run's trace
